@@ -70,6 +70,15 @@ CLAIMS = {
                 "condition list; since/until bound created_at in the right direction in all three matchers.",
         "not_decided": "semantic NIP-01 equivalence of the assembled WHERE clause / index scans; that the store holds only accepted events.",
     },
+    "C04": {
+        "technique": "taint-to-sink abstract interpretation with sink = JSON frame (hole position: between quotes / value position), "
+                     "admission-derived field marks (guard participation in is_signed), codec table extraction and comparison "
+                     "(SELECT list, table definitions, row indices, INSERT values, msgpack row, FIELDS_TO_COLUMNS)",
+        "text": TXT + "Decides: every ws_send value is a json_dumps of a list with a known head, the hand serializer, or a template with "
+                "JSON-adequate holes; each hole of the hand serializer is encoded or admission-proven (canonical hex / int); the SQL and "
+                "LMDB writer/reader tables describe one mapping and store each field through a reversible codec; /e/<id> publishes through the encoder.",
+        "not_decided": "round-trip equality through the engines' JSON/TEXT/msgpack codecs for all values; byte-level escaping equality.",
+    },
 }
 
 PENDING = "checker for this property is not implemented yet in this revision; nothing is claimed"
